@@ -6,7 +6,7 @@
     - without the hypothesis on token kinds too: a token that already carries the kind of the clause node
       is taken as it is, without the clause's Indent. *)
 From Coq Require Import FMapPositive ZArith.
-From Sq Require Import Base.Bytes Apply.Model Pem.Model Pem.WfExamples Pem.LayoutInv Pem.MetaBal Pem.MetaBalProofs.
+From Sq Require Import Base.Bytes Apply.Model Pem.Model Pem.WfSafe Pem.WfExamples Pem.LayoutInv Pem.MetaBal Pem.MetaBalProofs Pem.MetaTree.
 
 Local Open Scope N_scope.
 
@@ -53,6 +53,18 @@ Example ex_balanced_sum : isum g_sel m_sel = 0%Z.
 Proof.
   destruct ex_balanced_parse as (H1 & _ & H3 & H4 & H5 & _).
   exact (parse_root_meta_balanced g_sel p_sel [] 30%nat 0 9 m_sel H1 H3 H4 H5).
+Qed.
+
+(** ... and on the File tree [root_parse] builds from it: four metas (Indent, Dedent, Indent, Dedent) *)
+Definition ts_sel := tks 0 p_sel.
+Example ex_balanced_tree :
+  exists t, root_parse ts_sel (GOk m_sel) = Some (POk t) /\ tsum g_sel t = 0%Z /\
+            t = Node K_File [Node 110 [Tok 0 120; Meta 203 1; Tok 1 200; Tok 2 102; Tok 3 103; Tok 4 102]; Tok 5 200; Meta 204 6;
+                             Node 202 [Tok 6 100; Meta 203 7; Tok 7 102; Meta 204 8; Tok 8 101]].
+Proof.
+  destruct ex_balanced_parse as (H1 & _ & H3 & H4 & H5 & _).
+  eexists. split; [vm_compute; reflexivity|]. split; [|reflexivity].
+  eapply (parse_tree_meta_balanced g_sel p_sel [] ts_sel 30%nat m_sel); try eassumption; vm_compute; reflexivity.
 Qed.
 
 (** the clause alone as the root: the table is inconsistent (the root's net value is +1) and the parse
